@@ -330,4 +330,191 @@ theorem faultR_modifyMem (k : Nat) (kind : FaultKind) (f : Mem → Mem) : Rel (f
   refine Or.inr ⟨rfl, h1, h2, ?_, h4, h5⟩
   simp only [exec_modifyMem, h3]
 
+/-! ### a run whose fault is never hit coincides with the fault-free run -/
+
+/-- `fault_not_hit`: if the body, run with the fault plan `(k, kind)`, returns normally, then its final working state
+(working copy, statement counter, in-memory lists) is exactly the one of the fault-free run. -/
+theorem exec_fault_not_hit (db : Db) (mem : Mem) (op : Op) (k : Nat) (kind : FaultKind)
+    (h : (exec (prog op) ⟨db, mem, 0, some (k, kind)⟩).1 = .ok ()) :
+    (exec (prog op) ⟨db, mem, 0, none⟩).1 = .ok () ∧
+    (exec (prog op) ⟨db, mem, 0, some (k, kind)⟩).2.db = (exec (prog op) ⟨db, mem, 0, none⟩).2.db ∧
+    (exec (prog op) ⟨db, mem, 0, some (k, kind)⟩).2.n = (exec (prog op) ⟨db, mem, 0, none⟩).2.n ∧
+    (exec (prog op) ⟨db, mem, 0, some (k, kind)⟩).2.mem = (exec (prog op) ⟨db, mem, 0, none⟩).2.mem := by
+  rcases rel_prog (fun b => faultR_stmt k kind b) (faultR_modifyMem k kind) op
+      ⟨db, mem, 0, some (k, kind)⟩ ⟨db, mem, 0, none⟩ ⟨rfl, rfl, rfl, rfl, rfl⟩ with ⟨e, _, he⟩ | ⟨h1, h2, h3, h4, _⟩
+  · rw [h] at he; cases he
+  · exact ⟨h1 ▸ h, h2, h3, h4⟩
+
+/-- **Atomicity**: whatever statement a fault hits and whatever its kind, the committed file content afterwards is either
+the content before the call or the content the fault-free call commits. -/
+theorem runOp_atomic (db : Db) (mem : Mem) (op : Op) (k : Nat) (kind : FaultKind) :
+    (runOp db mem op (some (k, kind))).db = db ∨
+      (runOp db mem op (some (k, kind))).db = (runOp db mem op none).db := by
+  rw [runOp_eq, runOp_eq]
+  rcases hr : (exec (prog op) ⟨db, mem, 0, some (k, kind)⟩).1 with e | a
+  · exact Or.inl (finish_error_db _ _ _ _ e hr)
+  · obtain ⟨h0, h1, _, _⟩ := exec_fault_not_hit db mem op k kind hr
+    rw [finish_none_ok _ _ _ h0]
+    rcases finish_ok_db db mem (some (k, kind)) _ hr with h | h
+    · exact Or.inl h
+    · exact Or.inr (h.trans h1)
+
+
+/-! ### fault-free runs -/
+
+theorem exec_stmt_none {β} (body : Db → Except SqlErr (β × Db)) (db : Db) (mem : Mem) (n : Nat) :
+    exec (stmt body) ⟨db, mem, n, none⟩ =
+      match body db with
+      | .error e => (.error e, ⟨db, mem, n + 1, none⟩)
+      | .ok (r, db') => (.ok r, ⟨db', mem, n + 1, none⟩) := by
+  rw [exec_stmt]
+  have : injected none n = none := rfl
+  simp only [this]
+  cases body db with
+  | error e => rfl
+  | ok p => obtain ⟨r, d⟩ := p; simp
+
+@[simp] theorem exec_readStmt_none {β} (g : Db → β) (db : Db) (mem : Mem) (n : Nat) :
+    exec (readStmt g) ⟨db, mem, n, none⟩ = (.ok (g db), ⟨db, mem, n + 1, none⟩) := by
+  unfold readStmt; rw [exec_stmt_none]
+
+theorem exec_writeStmt_none (f : Db → Except SqlErr Db) (db : Db) (mem : Mem) (n : Nat) :
+    exec (writeStmt f) ⟨db, mem, n, none⟩ =
+      match f db with
+      | .error e => (.error e, ⟨db, mem, n + 1, none⟩)
+      | .ok d => (.ok (), ⟨d, mem, n + 1, none⟩) := by
+  unfold writeStmt; rw [exec_stmt_none]
+  cases f db <;> rfl
+
+theorem exec_writeStmt_ok {f : Db → Except SqlErr Db} {db d : Db} (h : f db = .ok d) (mem : Mem) (n : Nat) :
+    exec (writeStmt f) ⟨db, mem, n, none⟩ = (.ok (), ⟨d, mem, n + 1, none⟩) := by
+  rw [exec_writeStmt_none, h]
+
+theorem exec_writeStmt_error {f : Db → Except SqlErr Db} {db : Db} {e : SqlErr} (h : f db = .error e) (mem : Mem) (n : Nat) :
+    exec (writeStmt f) ⟨db, mem, n, none⟩ = (.error e, ⟨db, mem, n + 1, none⟩) := by
+  rw [exec_writeStmt_none, h]
+
+/-- outcome reported by `with_connection` for a fault-free body result -/
+def outcomeOf : Except SqlErr Unit → Outcome
+  | .ok _ => .ok
+  | .error .integrity => .parsingError
+  | .error .interface => .parsingError
+  | .error .operational => .otherError
+  | .error .exit => .died
+
+/-- the fault-free call: the PRAGMA is statement 0, the body starts at counter 1 -/
+theorem runOp_none (db : Db) (mem : Mem) (op : Op) :
+    (runOp db mem op none).out = outcomeOf (exec op.body ⟨db, mem, 1, none⟩).1 ∧
+    (runOp db mem op none).db =
+      (match (exec op.body ⟨db, mem, 1, none⟩).1 with
+        | .ok _ => (exec op.body ⟨db, mem, 1, none⟩).2.db
+        | .error _ => db) := by
+  rw [runOp_eq]
+  unfold prog
+  rw [exec_bind, exec_writeStmt_none]
+  simp only
+  unfold finish outcomeOf
+  rcases (exec op.body ⟨db, mem, 1, none⟩).1 with e | a
+  · cases e <;> exact ⟨rfl, rfl⟩
+  · simp
+
+
+/-! ### unary invariants of fault-free runs -/
+
+/-- postcondition of a statement function: `P` of the new content, or an error allowed to escape -/
+def okP (P : Db → Prop) (E : SqlErr → Prop) : Except SqlErr Db → Prop
+  | .ok d => P d
+  | .error e => E e
+
+@[simp] theorem okP_ok {P : Db → Prop} {E : SqlErr → Prop} (d : Db) : okP P E (.ok d) = P d := rfl
+@[simp] theorem okP_error {P : Db → Prop} {E : SqlErr → Prop} (e : SqlErr) : okP P E (.error e) = E e := rfl
+
+/-- every error may escape -/
+abbrev anyErr : SqlErr → Prop := fun _ => True
+
+/-- Fault-free Hoare judgement with one invariant: from a state without fault plan whose working copy satisfies `P`, the
+program either fails with an error satisfying `E`, or returns normally in a state without fault plan whose working copy
+satisfies `P`. -/
+def Inv (E : SqlErr → Prop) (P : Db → Prop) {β : Type} (p : Sql β) : Prop :=
+  ∀ w, w.fault = none → P w.db →
+    (∃ e, E e ∧ (exec p w).1 = .error e) ∨
+      (∃ a, (exec p w).1 = .ok a ∧ (exec p w).2.fault = none ∧ P (exec p w).2.db)
+
+namespace Inv
+variable {E : SqlErr → Prop} {P : Db → Prop}
+
+theorem pure {β} (a : β) : Inv E P (Pure.pure a : Sql β) := fun _ h1 h2 => Or.inr ⟨a, rfl, h1, h2⟩
+theorem throw {β} (e : SqlErr) (he : E e) : Inv E P (throw e : Sql β) := fun _ _ _ => Or.inl ⟨e, he, rfl⟩
+theorem raise {β} (e : SqlErr) (he : E e) : Inv E P (raise e : Sql β) := fun _ _ _ => Or.inl ⟨e, he, rfl⟩
+
+theorem bind {α β} {p : Sql α} {f : α → Sql β} (hp : Inv E P p) (hf : ∀ a, Inv E P (f a)) : Inv E P (p >>= f) := by
+  intro w h1 h2
+  rw [exec_bind]
+  rcases hp w h1 h2 with ⟨e, hE, he⟩ | ⟨a, ha, h3, h4⟩
+  · left
+    refine ⟨e, hE, ?_⟩
+    rcases hx : exec p w with ⟨r, w1⟩
+    rw [hx] at he
+    simp only at he
+    subst he
+    rfl
+  · rcases hx : exec p w with ⟨r, w1⟩
+    rw [hx] at ha h3 h4
+    simp only at ha h3 h4
+    subst ha
+    exact hf a w1 h3 h4
+
+theorem ite {β} {c : Prop} [Decidable c] {p q : Sql β} (hp : Inv E P p) (hq : Inv E P q) :
+    Inv E P (if c then p else q) := by
+  split <;> assumption
+
+theorem forIn {α β} (l : List α) (f : α → β → Sql (ForInStep β)) (hf : ∀ a b, Inv E P (f a b)) (b : β) :
+    Inv E P (forIn l b f) := by
+  induction l generalizing b with
+  | nil => rw [List.forIn_nil]; exact pure b
+  | cons a l ih =>
+    rw [List.forIn_cons]
+    refine bind (hf a b) ?_
+    intro r
+    cases r with
+    | done b => exact pure b
+    | yield b => exact ih b
+
+theorem stmt {β} (body : Db → Except SqlErr (β × Db))
+    (h : ∀ d, P d → match body d with | .ok (_, d') => P d' | .error e => E e) : Inv E P (stmt body) := by
+  rintro ⟨db, mem, n, f⟩ hf hP
+  simp only at hf hP
+  subst hf
+  rw [exec_stmt_none]
+  have := h db hP
+  cases hb : body db with
+  | error e => rw [hb] at this; exact Or.inl ⟨e, this, rfl⟩
+  | ok p => obtain ⟨r, d⟩ := p; rw [hb] at this; exact Or.inr ⟨r, rfl, rfl, this⟩
+
+theorem readStmt {β} (g : Db → β) : Inv E P (readStmt g) := stmt _ fun _ h => h
+
+theorem writeStmt (f : Db → Except SqlErr Db) (h : ∀ d, P d → okP P E (f d)) : Inv E P (writeStmt f) := by
+  refine stmt _ fun d hd => ?_
+  have := h d hd
+  cases hf : f d with
+  | error e => rw [hf] at this; exact this
+  | ok d' => rw [hf] at this; exact this
+
+theorem modifyMem (f : Mem → Mem) : Inv E P (modifyMem f) := fun _ h1 h2 => Or.inr ⟨(), rfl, h1, h2⟩
+
+end Inv
+
+/-- structural decomposition for a unary invariant; `t` discharges the obligation of each write statement and `r` the
+side condition `E e` of each `raise e` -/
+macro "sql_inv" "[" t:tacticSeq "]" "[" r:tacticSeq "]" : tactic => `(tactic|
+  repeat (first
+    | with_reducible exact Inv.pure _
+    | with_reducible exact Inv.readStmt _ | with_reducible exact Inv.modifyMem _
+    | with_reducible refine Inv.raise _ (by $r) | with_reducible refine Inv.throw _ (by $r)
+    | with_reducible refine Inv.writeStmt _ (by $t)
+    | with_reducible apply Inv.bind | with_reducible apply Inv.ite | with_reducible apply Inv.forIn
+    | with_reducible intro _
+    | (split)
+    | dsimp only))
+
 end PgVerif.StoreL
